@@ -293,7 +293,7 @@ class Vocabulary(Mapping):
             modifier_split = p_expr.split(".", 1)
             if len(assign_split) > 1:
                 name, value_expr = assign_split
-                value = eval(value_expr.strip(), {}, self)
+                value = self.parse(value_expr.strip())
             elif len(modifier_split) > 1:
                 name = modifier_split[0]
                 value = self.create_pointer(transform=modifier_split[1])
